@@ -538,9 +538,15 @@ func runC18(res *hx.Result, rng *hx.Rng, tier string, outdir string) {
 	if tier == "thorough" {
 		nRT, nText = 9000, 45000
 	}
-	cf := hx.NewCases(outdir, "C18", "From QV Require Import Sig SigParse Idl C18Run.", "mismatches gcases pcases", res,
+	cf := hx.NewCases(outdir, "C18", "From QV Require Import Sig SigParse Idl C18Run.", "mismatches cfg_guard gcases pcases", res,
 		"gcases", "gcase", "pcases", "pcase")
 	cf.Extra = append(cf.Extra, "Open Scope string_scope.")
+	// defect probe first (the case files need its verdict): the witness of
+	// C18_refuted_self_referential_struct_crash either ends the child process or is refused
+	selfRefWitness := "struct A\n a: A\nend\ninterface I\n fn f(x: A)\nend"
+	probe := parseAll(outdir, []string{selfRefWitness})[0]
+	guard := probe.Res == 0
+	cf.Extra = append(cf.Extra, "Definition cfg_guard := "+hx.Bool(guard)+".")
 
 	var cases []rtCase
 	// ---- safe round-trip cases ----
@@ -612,8 +618,6 @@ func runC18(res *hx.Result, rng *hx.Rng, tier string, outdir string) {
 	}
 
 	// ---- switch probes: the witnesses of C18_refuted_* ----
-	type probe struct{ key, pkgText string }
-	_ = probe{}
 
 	// ---- run GenerateIDL on every case ----
 	var texts []string
@@ -858,7 +862,7 @@ func runC18(res *hx.Result, rng *hx.Rng, tier string, outdir string) {
 		cf.Add("pcases", fmt.Sprintf("P %s %d%%N %s", idlStr(p.text), r, objsTerm(o.Objs)), "parse "+p.desc)
 	}
 	if !crashSeen {
-		res.Switch("self_referential_struct_crash", false, "")
+		res.Switch("self_referential_struct_crash", probe.Res == 2, fmt.Sprintf("ParseIDL on %q ends the process: %s", selfRefWitness, probe.Error))
 	}
 	cf.Flush()
 }
